@@ -6,11 +6,18 @@
     depth, any mix of keyed / inline / empty groups anywhere), ALL derivation chains, the five
     levels, source on or off; no bounds.  [wf_chain] / [wf_record] are boolean and say only what
     the standard-library oracles promise: the time texts are printable ASCII without quote and
-    backslash, an encoding/json result is exactly one JSON value without newline. *)
+    backslash, an encoding/json result is exactly one JSON value without newline.
+
+    Specification decisions pinned by [expected] (they follow the code as it is and are part of what the
+    check enforces): [nest] demands an object — possibly the empty object — for every WithGroup, so a
+    logger derived by WithGroup("g") alone prints "g":{} ; attribute groups without members are omitted;
+    an encoding failure is the string holding exactly the text of the (unwrapped) error, so [VRaw (RErr m)]
+    pins the wording; invalid UTF-8 inside any string reads as U+FFFD per byte (the parser's one leniency,
+    the one of encoding/json), everywhere else the parser is strict. *)
 From Coq Require Import List NArith ZArith Bool.
 Import ListNotations.
 From Glb Require Import Lib.Utf8 Lib.JsonDec Lib.Json Model.LoggerJson Model.LoggerJsonSpec Model.LoggerJsonPinned.
-From Glb Require Import Proofs.JsonDecP Proofs.JsonP Proofs.LoggerJsonEscP Proofs.LoggerJsonP Proofs.LoggerJsonPinnedP.
+From Glb Require Import Proofs.JsonDecP Proofs.JsonP Proofs.LoggerJsonEscP Proofs.LoggerJsonP Proofs.LoggerJsonUtf8P Proofs.LoggerJsonPinnedP.
 Open Scope N_scope.
 
 (** THE property. *)
@@ -21,6 +28,15 @@ Theorem C01_json_line_faithful : forall chain rec,
             /\ parse_object body = Some (JObj (expected chain rec), []).
 Proof. exact json_line_faithful. Qed.
 Print Assumptions C01_json_line_faithful.
+
+(** The leniency of the parser is not a licence for the handler: whenever every embedded encoding/json text is
+    valid UTF-8 (always, unless a json.Marshaler returns invalid bytes, which encoding/json hands through), the whole
+    line is valid UTF-8 — glb's own writer never emits a byte outside a valid sequence. *)
+Theorem C01_json_line_utf8 : forall chain rec,
+  wf_chain chain = true -> wf_record rec = true -> raws_utf8 chain rec = true ->
+  utf8_ok (handle (derive chain) rec) = true.
+Proof. exact json_line_utf8. Qed.
+Print Assumptions C01_json_line_utf8.
 
 (** Stage 1: appendJsonString is inverted by the strict string scanner up to U+FFFD per invalid byte,
     for every byte string and every continuation. *)
@@ -59,6 +75,31 @@ Theorem C01_chain_invariant : forall c h inner T,
 Proof. exact chain_invariant. Qed.
 Print Assumptions C01_chain_invariant.
 
+(** The source file printed is [source_file f.File]: the last two path elements ... *)
+Theorem C01_source_file_last_two : forall p a b,
+  (forall c, In c a -> c <> 47) -> (forall c, In c b -> c <> 47) ->
+  source_file (p ++ 47 :: a ++ 47 :: b) = a ++ 47 :: b.
+Proof. exact source_file_last_two. Qed.
+Print Assumptions C01_source_file_last_two.
+
+(** ... and, transcribed as the code is, f.File minus its FIRST BYTE when fewer than two '/' follow that byte
+    (a known oddity: "a/b.go" is reported as "/b.go", "main.go" as "ain.go"; absolute paths never get there). *)
+Theorem C01_source_file_short : forall c file,
+  (forall a b, file <> a ++ 47 :: b) \/
+  (exists a b, file = a ++ 47 :: b /\ (forall x, In x a -> x <> 47) /\ (forall x, In x b -> x <> 47)) ->
+  source_file (c :: file) = file.
+Proof. exact source_file_short. Qed.
+Print Assumptions C01_source_file_short.
+
+Example C01_source_file_examples :
+  map source_file [ [47; 115; 114; 118; 47; 97; 34; 98; 47; 99; 46; 103; 111];   (* /srv/a<quote>b/c.go -> a<quote>b/c.go *)
+                    [47; 97; 47; 98];                                            (* /a/b -> a/b *)
+                    [97; 47; 98; 46; 103; 111];                                  (* a/b.go -> /b.go  (oddity) *)
+                    [109; 97; 105; 110];                                         (* main -> ain      (oddity) *)
+                    [] ]
+  = [ [97; 34; 98; 47; 99; 46; 103; 111]; [97; 47; 98]; [47; 98; 46; 103; 111]; [97; 105; 110]; [] ].
+Proof. vm_compute. reflexivity. Qed.
+
 (** The numbers in the line denote the logged integers. *)
 Theorem C01_int_text_faithful : forall z n, of_dec_z (to_dec_z z) = z /\ of_dec (to_dec n) = n.
 Proof. intros z n. split; [exact (of_dec_z_to_dec_z z) | exact (of_dec_to_dec n)]. Qed.
@@ -86,7 +127,7 @@ Definition hostile_chain : list deriv :=
 
 Definition hostile_record : record :=
   mkR [50; 48; 50; 52; 45; 48; 49; 45; 48; 49; 84; 48; 48; 58; 48; 48; 58; 48; 48; 90] LError
-      (Some ([97; 47; 98; 46; 103; 111], 42%Z))
+      (Some ([47; 120; 255; 47; 97; 34; 47; 98; 46; 103; 111], 42%Z))    (* /x<ff>/a<quote>/b.go *)
       [109; 0; 34; 92; 226; 128; 168; 237; 160; 128]
       [ ([107], VInt (-9223372036854775808));
         ([], VGroup []);
@@ -95,6 +136,7 @@ Definition hostile_record : record :=
         ([114], VRaw (ROk [123; 34; 97; 34; 58; 91; 49; 44; 50; 46; 53; 101; 43; 49; 44; 110; 117; 108; 108; 93; 125]));
         ([226; 128; 169], VGroup [([], VGroup [])]);
         ([116], VTime [48; 48; 48; 49; 45; 48; 49; 45; 48; 49; 84; 48; 48; 58; 48; 48; 58; 48; 48; 90]);
+        ([119], VRaw (ROk [34; 192; 175; 34]));                 (* a Marshaler returned invalid UTF-8 inside a string *)
         ([122], VErrStr [10; 13; 9]); ([], VAnsi [27]) ].
 
 Example C01_hypotheses_satisfiable : wf_chain hostile_chain = true /\ wf_record hostile_record = true.
@@ -105,11 +147,11 @@ Example C01_hostile_line :
   parse_object (removelast w) = Some (JObj (expected hostile_chain hostile_record), []) /\ last w 0 = 10.
 Proof. vm_compute. split; reflexivity. Qed.
 
-(** the object really is nested and non-trivial: 4 fixed members, then a; g{ h{ x k u i j r t z (empty key) } } —
+(** the object really is nested and non-trivial: 4 fixed members, then a; g{ h{ x k u i j r t w z (empty key) } } —
     the keyed groups without members ([e], and U+2029 holding only an empty inline group) are omitted *)
 Example C01_hostile_shape :
   match expected hostile_chain hostile_record with
-  | [_; _; (_, JObj [_; _]); _; (_, JTrue); (_, JObj [(_, JObj ms)])] => length ms = 9%nat
+  | [_; _; (_, JObj [_; _]); _; (_, JTrue); (_, JObj [(_, JObj ms)])] => length ms = 10%nat
   | _ => False
   end.
 Proof. vm_compute. reflexivity. Qed.
@@ -120,9 +162,14 @@ Example C01_parser_is_strict :
       [ [123; 34; 97; 34; 58; 49; 44; 125];            (* {"a":1,}  trailing comma *)
         [123; 34; 97; 34; 58; 49; 44; 44; 34; 98; 34; 58; 50; 125];  (* {"a":1,,"b":2} *)
         [34; 10; 34];                                   (* raw newline in a string *)
-        [34; 255; 34];                                  (* invalid UTF-8 *)
         [34; 92; 117; 100; 56; 48; 48; 34];             (* lone surrogate escape *)
         [48; 49];                                       (* leading zero *)
         [123; 125; 120] ]                               (* trailing garbage *)
-  = [None; None; None; None; None; None; None].
+  = [None; None; None; None; None; None].
 Proof. vm_compute. reflexivity. Qed.
+
+(** its one leniency: an invalid UTF-8 byte inside a string is U+FFFD; outside a string it is an error *)
+Example C01_parser_leniency :
+  parse_json [34; 255; 97; 192; 175; 34] = Some (JStr [239; 191; 189; 97; 239; 191; 189; 239; 191; 189])
+  /\ parse_json [91; 255; 93] = None.
+Proof. vm_compute. split; reflexivity. Qed.
